@@ -73,6 +73,17 @@ Definition model_run (leaf : option fc) (s : series) (ups : list (Z * list oq)) 
   (cutoff_trace (fit_state s) ups, pred_index st h,
    match leaf with Some f => Some (leaf_values f train st h) | None => None end).
 
+(* the whole program as the user writes it: hf / hp = the horizon passed to fit / to predict.
+   Only predict needs a horizon: the updates - with or without the refit of update_params=True -
+   never look at it (since 53a6ca7 the refit hands over the horizon seen so far, IF ANY, instead
+   of requiring one), so `refit` and `hf` are independent. *)
+Definition program_run (leaf : option fc) (s : series) (ups : list (Z * list oq)) (refit : bool)
+           (hf hp : option horizon) : res (list Z * list Z * option (res (list oq))) :=
+  match used_fh hf hp with
+  | Ok h => Ok (model_run leaf s ups refit h)
+  | Err => Err
+  end.
+
 (* shifting the time axis by k *)
 Definition shift_series (k : Z) (s : series) : series := {| t0 := t0 s + k; ys := ys s |}.
 Definition shift_batch (k : Z) (b : Z * list oq) : Z * list oq := (fst b + k, snd b).
